@@ -133,8 +133,10 @@ def handle (_ : Unit) (j : Json) : R (Unit × Json) := do
     return ((), jObj [("model", jPyOut (ioniceSetPy icfg c v)), ("spec", Json.null)])
   else if op == "iff" then
     let f ← natF j "flags"
-    return ((), jObj [("model", jList Json.str (iffNames iffLinux Gen.C17.iffMask f)),
-                      ("spec", jList Json.str (Spec.flagNames (f % 65536)))])
+    let names := iffNames iffLinux Gen.C17.iffMask f
+    let undoc := names.filter (fun n => !(Gen.C17.iffDocNames.contains n))
+    return ((), jObj [("model", jObj [("names", jList Json.str names), ("undocumented", jList Json.str undoc)]),
+                      ("spec", jObj [("names", jList Json.str (Spec.flagNames (f % 65536))), ("undocumented", jList Json.str [])])])
   else .error s!"unknown op {op}"
 
 def main : IO Unit := Proto.run () (total handle)
